@@ -12,7 +12,8 @@ Inductive loop_class :=
 | CollectForSortedConsumer (* the same, the sort happening in the only consumer of the returned slice *)
 | MarkEntries              (* set a flag on the visited entry (imp.IsUsed = true) *)
 | FilterIntoMap            (* copy the visited entry into another map under its own key when a predicate holds *)
-| AdjacencyFill.           (* adj[idx n] = append(adj[idx n], targets n...) for every node n of the edges map *)
+| AdjacencyFill            (* adj[idx n] = append(adj[idx n], targets n...) for every node n of the edges map *)
+| AnyEntry.                (* report whether some entry satisfies a predicate (return true at the first one found, false after the loop) *)
 
 Section Loops.
 Variable E : Type.             (* map entries *)
@@ -86,6 +87,8 @@ Definition class_sound (c : loop_class) : Prop :=
         forall k, filter_into E key keep l m k = filter_into E key keep l' m k
   | AdjacencyFill =>
       forall targets o o', NoDup o -> Permutation o o' -> forall m, fill targets o m = fill targets o' m
+  | AnyEntry =>
+      forall (E : Type) (f : E -> bool) (l l' : list E), Permutation l l' -> existsb f l = existsb f l'
   end.
 
 Theorem every_class_sound : forall c, class_sound c.
@@ -96,6 +99,7 @@ Proof.
   - intros; apply mark_order_independent; auto.
   - intros; apply filter_into_order_independent; auto.
   - intros; apply fill_order_independent; auto.
+  - intros; apply existsb_perm; auto.
 Qed.
 
 (* a census: one line per map iteration found in the code; None = an iteration nobody has classified *)
